@@ -995,6 +995,19 @@ def columns_consult_the_width_table(F, res, rule="U11"):
             continue
         n += 1
         table = reads("char_diffs", False)
+        # the table asked through a helper of the line map (`self.diffs_for_line(line)`)
+        for b, t in f.calls():
+            c = callee(t) or ""
+            h = F.fns.get(c)
+            if c.startswith(LM) and c != p_ and h is not None and h.blocks:
+                dh = FL.Defs(h)
+                for _b2, t2 in h.calls():
+                    if not t2["args"]:
+                        continue
+                    o2 = dh.origin_op(t2["args"][0], through_calls=("Deref>::deref", "Deref::deref"))
+                    if o2.get("k") == "field" and "char_diffs" in [e.get("n") for e in o2.get("proj", []) if isinstance(e, dict)]:
+                        table.append(b)
+                        break
         rets = f.return_blocks()
         # paths entry -> return that read a line start but never ask the table
         leak = [r for r in rets if f.can_reach(0, [r], avoid=table) and any(f.can_reach(0, [sb], avoid=table) and (sb == r or f.can_reach(sb, [r], avoid=table)) for sb in starts)]
